@@ -20,7 +20,8 @@ EXPLANATION = ("Pattern formatter tables and wiring. R1 (exhaustive over the Att
                "it has not looked at. R6: MacroMetadata offsets (file name, line, short location). R7: two option sets are equal — and a "
                "formatter is shared between loggers — only if every data member is equal. R8 (= C16.R3): each sink receives the line "
                "of its own override pattern if it has one, else the logger's, chosen afresh per sink."
-               " R1f/R1g: the rewriter's starting state and the one-index-per-name registration. R2i/R2j: the text of %(named_args); tags read only when present. R6w: compile-time witness for the two source-location offsets. R9e: the text is shortened to the message part before anything rewrites it. R10: the process id is set on every start path. R11/R12 (= C18.R3, C10.R2): replayed backtrace records; per-event clean-up.")
+               " R1f/R1g: the rewriter's starting state and the one-index-per-name registration. R2i/R2j: the text of %(named_args); tags read only when present. R6w: compile-time witness for the two source-location offsets. R9e: the text is shortened to the message part before anything rewrites it. R10: the process id is set on every start path. R11/R12 (= C18.R3, C10.R2): replayed backtrace records; per-event clean-up."
+               ' R9a is asked on both arms of the named-args test (a LOG_RUNTIME_METADATA statement with a named placeholder is not lost). R14t (= C03.R4t): the run-time level, text and named args travel with the event.')
 TECHNIQUE = "static analysis: custom checker over clang AST/CFG facts (table and path rules) plus a compile-time witness (static_assert table over 'path:line' literals evaluated by the compiler) for MacroMetadata's constexpr offsets"
 NOT_DECIDED = ("The rewritten fmt string for arbitrary literal text and specs, line splitting for every arrangement of newlines as "
                "values, MacroMetadata offset arithmetic for file name / line, attributes used twice (excluded by the property).")
